@@ -1,7 +1,7 @@
 #!/bin/bash
-# usage: harness/verify_breaker.sh C07   — confirm the three changes a breaker left in /tmp/brk-c07/out/{1,2,3},
+# usage: harness/verify_breaker.sh C07 [note] [worktree suffix] [id offset]  — confirm the three changes a breaker left in /tmp/brk-c07/out/{1,2,3},
 # run the property's check against each in the scratch worktree, store them under /verif/seeded/.
-P=$1; lc=$(echo $P | tr A-Z a-z); WT=/tmp/brk-$lc
+P=$1; lc=$(echo $P | tr A-Z a-z); WT=/tmp/brk-$lc$3; OUTD=/tmp/vb-out-$lc$3; START=${4:-0}
 cd $WT || exit 1
 git checkout -q -- . ; git checkout -q --detach main
 for n in 1 2 3; do
@@ -11,14 +11,14 @@ for n in 1 2 3; do
   git apply out/$n/patch.diff || { echo "patch does not apply at main"; continue; }
   /venv/bin/python out/$n/demo.py > /dev/null 2>&1; p=$?
   echo "demo clean rc=$c patched rc=$p"
-  rm -f /verif/replays/$P-0-*.json
-  VERIF_REPO=$WT /verif/check $P 2>&1 | grep -E "VIOLATION|KNOWN|tier=|HARNESS|TIMEOUT" | head -5
+  rm -rf $OUTD
+  VERIF_OUT_DIR=$OUTD VERIF_REPO=$WT /verif/check $P 2>&1 | grep -E "VIOLATION|KNOWN|tier=|HARNESS|TIMEOUT" | head -5
   git checkout -q -- .
-  r=$(ls /verif/replays/$P-0-*.json 2>/dev/null | head -1)
+  r=$(ls $OUTD/replays/$P-0-*.json 2>/dev/null | head -1)
   if [ "$c" = 0 ] && [ "$p" != 0 ]; then
-    (cd /verif && /venv/bin/python harness/store_seeded.py $P $n $WT/out/$n ${r:--} "${2:-}")
+    (cd /verif && /venv/bin/python harness/store_seeded.py $P $((n+START)) $WT/out/$n ${r:--} "${2:-}")
   else
     echo "NOT CONFIRMED (demo rc clean=$c patched=$p) — not stored"
   fi
-  rm -f /verif/replays/$P-0-*.json
+  rm -rf $OUTD
 done
